@@ -833,9 +833,15 @@ func (c *Cursor) Forward(ctx context.Context) error {
 		if err != nil {
 			return fmt.Errorf("load: %w", err)
 		}
+		// the descent below can still fail: keep the position to go back to
+		saved := append([]pathEntry(nil), c.path...)
 		pe.linkIndex++
 		c.path = append(c.path, pathEntry{node: node})
-		return c.Min(ctx)
+		if err = c.Min(ctx); err != nil {
+			c.path = saved
+			return err
+		}
+		return nil
 	} else {
 		if pe.linkIndex+1 < len(node.Key) {
 			pe.linkIndex++
@@ -866,8 +872,14 @@ func (c *Cursor) Backward(ctx context.Context) error {
 		if err != nil {
 			return fmt.Errorf("load: %w", err)
 		}
+		// the descent below can still fail: keep the position to go back to
+		saved := append([]pathEntry(nil), c.path...)
 		c.path = append(c.path, pathEntry{node: node})
-		return c.Max(ctx)
+		if err = c.Max(ctx); err != nil {
+			c.path = saved
+			return err
+		}
+		return nil
 	} else {
 		if pe.linkIndex > 0 {
 			pe.linkIndex--
